@@ -16,6 +16,7 @@ RULE = (
     'scales log-uniform 1e-6..1e6 plus the guarded region (0, negative, <1e-15), fractions in [0,1] incl. the ends; '
     'fwhm() is also called with the full parameter dictionary of multi-peak models (2-4 peaks + background; prefixes of equal '
     'length p1_/p2_, nested p_/p_1_/p_1_2_, empty mixed with non-empty, prefixes that look like parameter names); '
+    'guess(data, coord=c) is called for every coordinate c of data carrying 2-3 coordinates of different units and values; '
     'the oracle also passes parameters in compatible but different units (loc / scale in mm|um|nm with x in m, scaled amplitude and '
     'coefficient units): refusal or the same physics; a dtype stream gives x and every parameter its own dtype out of float64 / float32 / int64 / int32 (moderate values) and compares '
     'the result dtype / DTypeError with the model of scipp promotion (callDT); '
@@ -1065,7 +1066,62 @@ def check_fwhm_foreign(a):
     return None
 
 
+def check_guess_coord(a):
+    """guess(data, coord=c) for every coordinate c of the data: the guessed parameters carry the units implied by THAT
+    coordinate (loc, scale in its unit; amplitude in y*its unit; a_i in y/its unit^i), a guessed loc lies within the range of
+    that coordinate, and the guess equals the guess on a copy of the data whose dimension-coordinate IS that coordinate"""
+    import re
+    import warnings
+
+    import numpy as np
+    import scipp as sc
+
+    t = tuple_tree(a['tree'])
+    m = build(t)
+    dim = a['dim']
+    y = sc.array(dims=[dim], values=np.asarray(a['ys'], dtype='float64'), unit=a['yunit'])
+    coords = {name: sc.array(dims=[dim], values=np.asarray(vals, dtype='float64'), unit=unit) for name, unit, vals in a['coords']}
+    data = sc.DataArray(y, coords=coords)
+    before = data.copy(deep=True)
+    for name, unit, vals in a['coords']:
+        cu = sc.Unit(unit)
+        with warnings.catch_warnings():
+            warnings.simplefilter('ignore')
+            try:
+                g = m.guess(data, coord=name)
+            except Exception as e:  # noqa: BLE001
+                return f'guess(data, coord={name!r}) raised {type(e).__name__}: {e}'
+            ref = m.guess(sc.DataArray(y.copy(), coords={dim: coords[name].copy()}))
+        if not sc.identical(data, before):
+            return 'guess modified its input'
+        if set(g) != m.param_names:
+            return f'guess(coord={name!r}) keys {sorted(g)} != param_names {sorted(m.param_names)}'
+        lo, hi = min(vals), max(vals)
+        for k, v in g.items():
+            if k.endswith('loc') or k.endswith('scale'):
+                exp_unit = cu
+            elif k.endswith('amplitude'):
+                exp_unit = y.unit * cu
+            elif k.endswith('fraction'):
+                exp_unit = sc.Unit('dimensionless')
+            else:
+                i = int(re.search(r'a(\d+)$', k).group(1))
+                exp_unit = y.unit / cu ** i
+            if v.unit != exp_unit:
+                return (f'guess(data, coord={name!r}) [{unit}] gives {k!r} in {v.unit}, the coordinate implies {exp_unit} '
+                        f'(the dimension-coordinate {dim!r} has {coords[dim].unit})')
+            if k.endswith('loc') and not (lo <= float(v.value) <= hi):
+                return f'guess(data, coord={name!r}) puts {k!r} = {float(v.value)!r} {v.unit} outside the coordinate range [{lo!r}, {hi!r}]'
+            w = ref[k]
+            same = float(v.value) == float(w.value) or (math.isnan(float(v.value)) and math.isnan(float(w.value)))
+            if w.unit != v.unit or not same:
+                return (f'guess(data, coord={name!r}) gives {k!r} = {float(v.value)!r} {v.unit}, guess on the same data with {name!r} as '
+                        f'dimension-coordinate gives {float(w.value)!r} {w.unit}')
+    return None
+
+
 CHECKS = {
+    'C16:guess-wrong-coordinate': check_guess_coord,
     'C16:fwhm-foreign-parameter': check_fwhm_foreign,
     'C16:normalisation': check_integral,
     'C16:symmetry': check_symmetry,
@@ -1115,6 +1171,20 @@ def oracle(ctx, deep):
             _run(ctx, 'C16:symmetry', b)
         leaves, plist, _, _ = multi_peak(rng)
         _run(ctx, 'C16:fwhm-foreign-parameter', {'leaves': [list(t) for t in leaves], 'params': [(k, v, list(u)) for k, v, u in plist]})
+        # guess(data, coord=<every coordinate>)
+        npts = rng.choice([12, 30, 60])
+        tof = sorted(rng.uniform(1000.0, 20000.0) for _ in range(npts))
+        if len(set(tof)) == npts:
+            peak_at, width = rng.uniform(0.25, 0.75), rng.uniform(0.05, 0.2)
+            frac = [(v - tof[0]) / (tof[-1] - tof[0]) for v in tof]
+            ys = [rng.uniform(0, 0.05) + math.exp(-((f_ - peak_at) / width) ** 2 / 2) * rng.uniform(5, 50) for f_ in frac]
+            k_d, k_l = logu(rng, 1e-5, 1e-3), logu(rng, 1e-4, 1e-2)
+            crd = [['tof', 'us', tof], ['dspacing', 'angstrom', [k_d * v for v in tof]]]
+            if rng.random() < 0.6:
+                crd.append(['wavelength', rng.choice(['nm', 'angstrom', 'm']), [5.0 - k_l * v for v in tof]])   # decreasing
+            tg = rand_tree(rng, rng.choice([0, 0, 1, 2]), clash_ok=False)
+            _run(ctx, 'C16:guess-wrong-coordinate', {'tree': _with_prefix(tg, rng.choice(['', 'p_', 'fit.', 'bg_'])), 'dim': 'tof',
+                                                     'ys': ys, 'yunit': rng.choice(['counts', 'dimensionless']), 'coords': crd})
         # compatible but different units
         lens = list(LENGTHS)
         for kind in 'GLV':
